@@ -202,6 +202,18 @@ def run_case(ctx, pydsdl, lay, workdir):
         ("two-trees/rootparent-rel/[abs-root,abs-twin]", ws, [rel_to_root_parent], [rootdir, twin_root], True),
         ("two-trees/abs-target/[abs-twin,abs-root]", ws, [fpath], [twin_root, rootdir], True),
     ]
+    # a sibling root namespace directory whose name is a proper prefix of the root's name ('anim' next to 'animals'), listed first:
+    # a directory contains a file by path components, not by the characters of the path string
+    pname = lay["root"][:max(1, len(lay["root"]) - 2)]
+    prefix_root = rootdir.parent / pname
+    if pname != lay["root"] and not prefix_root.exists():
+        prefix_root.mkdir(parents=True)
+        (prefix_root / "PrefixOnly.1.0.dsdl").write_text("@sealed\n")
+        designs += [
+            ("prefix-sibling/abs-target/[abs-prefix,abs-root]", ws, [fpath], [prefix_root, rootdir], True),
+            ("prefix-sibling/ws-rel/[rel-prefix,rel-root]", ws, [rel_to_ws], [Path(*lay["prefix"], pname), rel_root_ws], True),
+            ("prefix-sibling/rootparent-rel/[abs-prefix,abs-root]", ws, [rel_to_root_parent], [prefix_root, rootdir], True),
+        ]
     # designations off the documented forms that may fail, but only with an InvalidDefinitionError, and must give the identity
     # encoded by the path when they succeed: the target reached through '..' across a sibling root (a root that is only a
     # lexical prefix of the target is not its root), and roots spelled '.' / '../<root>' from inside the tree
